@@ -30,6 +30,9 @@ LEAVES = [
      [P("now", "now")], "num", {}),
     ("Cache", "add_listener_purge_updates_now", "_handlers/record_manager.py", "RecordManager.async_add_listener", ("arg", "self.async_updates", 0, 0),
      [P("now", "now")], "num", {}),
+    # D23b repair: the replay of the cache to the new listener uses the purge's reading of the clock
+    ("Cache", "add_listener_replay_now", "_handlers/record_manager.py", "RecordManager.async_add_listener", ("arg", "_async_update_matching_records", 2, 0),
+     [P("now", "now")], "num", {}),
     # ---- _engine.py: the periodic purge uses ONE reading of the clock: the instant it sweeps the cache with is the instant it
     # tells the listeners (a second `current_time_millis()` is not in the translator's subset: fails closed)
     ("Cache", "purge_expire_now", "_engine.py", "AsyncEngine._async_cache_cleanup", ("arg", "cache.async_expire", 0, 0),
